@@ -763,15 +763,47 @@ class StmtMixin:
         for inv in invs:
             ctx.assume(ctx.zbool(ctx.truth(self.eval_in_spec(inv))))
 
+    def reachable_classes(self):
+        """class models an object of which can be reached from the parameters / declared locals of the function under
+        verification (through modelled fields, bases and subclasses); objects of other modelled classes cannot be written by it"""
+        ctx = self.ctx
+        if getattr(ctx, "_reach", None) is not None:
+            return ctx._reach
+        import re as _re
+        ct = ctx.contract
+        texts = list(ct.params.values()) + list((ct.locals or {}).values()) + [ct.returns or ""]
+        if ct.class_name:
+            texts.append(ct.class_name)
+        seen, todo = set(), []
+        def names(t):
+            return [w for w in _re.findall(r"[A-Za-z_][A-Za-z_0-9]*", t or "") if w in C.CLASSES]
+        for t in texts:
+            todo.extend(names(t if isinstance(t, str) else ""))
+        while todo:
+            c = todo.pop()
+            if c in seen:
+                continue
+            seen.add(c)
+            for ft in C.CLASSES[c]["fields"].values():
+                todo.extend(names(ft))
+            todo.extend(C.CLASSES[c]["bases"])
+            todo.extend(k for k, m in C.CLASSES.items() if c in m["bases"])
+        ctx._reach = seen
+        return seen
+
     def havoc_fields(self, attrs, calls, spec):
         ctx = self.ctx
         keys = set()
+        reach = self.reachable_classes()
         for a in attrs:
             for cname, model in C.CLASSES.items():
-                if a in model["fields"]:
+                if a in model["fields"] and cname in reach:
                     keys.add((cname, a))
         for call in calls:
             if isinstance(call.func, ast.Attribute):
+                from .access import MODULES
+                if isinstance(call.func.value, ast.Name) and call.func.value.id in MODULES:
+                    continue        # a function of a library module (shutil.copy ...) is not a method of a modelled class
                 for ct in C.CONTRACTS.values():
                     if ct.method_name == call.func.attr:
                         for m in ct.modifies:
@@ -790,6 +822,7 @@ class StmtMixin:
                                         cls = ty.args[0].name
                                 if cls:
                                     keys.add((cls, f))
+        keys = {(c, f) for c, f in keys if c in reach}
         for c, f in spec.get("havoc_fields", []):
             keys.add((c, f))
         for cname, f in sorted(keys):
